@@ -321,6 +321,9 @@ using namespace th;
 //------------------------------------------------------------------------------------------------
 int main()
 {
+	// the global logger is not the subject here: library threads that log through it allocate from FastFlow's per-thread allocator, whose
+	// deregistration at thread exit is occasionally reported by ASan (heap-use-after-free in ff/allocator.hpp) - keep it silent
+	FIX8::GlobalLogger::set_levels(FIX8::Logger::Levels(FIX8::Logger::None));
 	Fill<NCB - 1>::go(g_cbs);
 	vclock::sleep_hook = sleep_hook; // set once, before any other thread exists
 	std::string line;
